@@ -27,7 +27,9 @@ RULE = ("exhaustive product of __conform__ behaviour (11) x provided (2) x alter
         "every way of attaching __conform__ (method, staticmethod, classmethod, function/lambda/partial/callable object "
         "in the instance __dict__, __getattr__, __slots__) x generic or overridden attribute lookup x its behaviours; "
         "a real AdapterRegistry.adapter_hook installed in adapter_hooks; a random stream with longer chains and "
-        "hooks raising AttributeError/TypeError.  Every case is non-trivial (it runs the call); distinct = "
+        "hooks raising AttributeError/TypeError; hooks and registry adapter factories that start a nested adaptation "
+        "J(other, None) before answering (every hook call at depth d is checked to be hook(I_d, obj_d), the nested call is "
+        "judged like any other).  Every case is non-trivial (it runs the call); distinct = "
         "distinct (conform kind, provided, hook kinds, alternate given, chain shape) signature")
 TRUSTED_BASE = ["interpreters Model/PyKernel.v and Model/CKernel.v (semantics of the statement languages and of the C API "
                 "calls that occur in IB__call__/IB__adapt__) and the fail-closed translators harness/translate/adapt_py.py, adapt_c.py",
@@ -193,6 +195,22 @@ def generate(run, tier):
                  for i, (a, pv, o, pl) in enumerate(rng.choice(lvl_opts) for _ in range(3))]
         conform, provides, hs, alt = rng.choice(pobjs)
         cases.append(_case("prov", chain, conform, provides, hs, alt, watch=rng.random() < 0.7))
+    # 3d. a hook that, before answering, adapts ANOTHER object to ANOTHER interface (J(other, None)): the
+    #     nested call runs every hook again at depth 1; every hook call at depth d must be hook(I_d, obj_d)
+    for hs in ([["none"], ["value", 11]], [["none"], ["none"], ["value", 12]], [["none"], ["raise", "other", 1]],
+               [["value", 10], ["none"]], [["none"], ["none"]]):
+        for at in range(len(hs)):
+            for nprov in (False, True):
+                for nconf in (["absent"], ["retvalue", 70], ["retnone"]):
+                    for nlast in ("none", "value"):
+                        for ret in (False, True):
+                            nhooks = [["none"] for _ in hs]
+                            if nlast == "value":
+                                nhooks[-1] = ["value", 80]
+                            nested = {"at": at, "provides": nprov, "conform": nconf, "nhooks": nhooks, "ret": ret}
+                            for alt in (None, 1):
+                                for chain in ([], [_lvl(["delegate"], False)]):
+                                    cases.append(_case("nested", chain, ["absent"], False, hs, alt, nested=nested))
     # 4. a real registry's adapter_hook
     for req in ("none", "IReq", "ISubReq"):
         for reg in ("none", "IReq", "Interface", "named", "None"):
@@ -201,6 +219,10 @@ def generate(run, tier):
                     for alt in ALTS:
                         cases.append({"kind": "registry", "req": req, "reg": reg, "factory_none": fnone,
                                       "provides": provides, "alt": alt})
+                        if reg in ("IReq", "Interface"):
+                            # the adapter factory adapts another object first; a second hook follows the registry's
+                            cases.append({"kind": "registry", "req": req, "reg": reg, "factory_none": fnone,
+                                          "provides": provides, "alt": alt, "nested": True})
     # 5. random stream: longer chains, longer hook lists, every exception family everywhere
     n = 5000 if thorough else 800
     eks = ("other", "type", "attr")
@@ -315,13 +337,28 @@ def coq_case(case, obs, mode):
     if case["kind"] == "registry":
         q = obs.get("q")
         hooks = ["HNone" if q is None else "(HValue %d)" % q] if (q is None or q >= 0) else ["(HRaise (mkExn EOther 999))"]
+        if case.get("nested"):
+            hooks.append("(HValue 2)")
         o = "(mkObj CAbsent %s %s %s)" % (C.cbool(case["provides"]), C.clist(hooks), alt)
-        return "(%s, [], %s, (true, false, false, true, %s), (%s, %s), None)" % (
+        return "(%s, [], %s, (true, false, false, true, %s), (%s, %s), None, None)" % (
             uc, o, C.cbool(obs["ok"]), C.clist([_ev(e) for e in obs["log"]]), _outcome(obs["out"]))
     chain = C.clist(["(mkLvl %s %s %s %s)" % (_cbeh(l["adapt"]), _pbeh(l.get("prov")), C.cbool(l["other"]),
                                                C.cbool(l.get("plain", False))) for l in case["chain"]])
+    hooks = list(case["hooks"])
+    nested = case.get("nested")
+    nobs = obs.get("nested")
+    nterm = "None"
+    if nested is not None:
+        if nested.get("ret"):
+            # the hook answers what the nested adaptation returned (an adapter) or None
+            v = nobs["out"] if nobs else None
+            hooks[nested["at"]] = ["value", v[1]] if v and v[0] == "val" else ["none"]
+        if nobs is not None:
+            no = "(mkObj %s %s %s (Some 0))" % (_conform(nested["conform"]), C.cbool(nested["provides"]),
+                                               C.clist([_hookt(h) for h in nested["nhooks"]]))
+            nterm = "(Some (%s, (%s, %s)))" % (no, C.clist([_ev(e) for e in nobs["log"]]), _outcome(nobs["out"]))
     o = "(mkObj %s %s %s %s)" % (_conform(case["conform"]), C.cbool(case["provides"]),
-                                 C.clist([_hookt(h) for h in case["hooks"]]), alt)
+                                 C.clist([_hookt(h) for h in hooks]), alt)
     classobj = case.get("objkind") == "classobj"
     arity = (case["conform"][0] == "te0"
              and (case.get("attach", "method") != "method" or case.get("te0how") == "arity"))
@@ -331,19 +368,21 @@ def coq_case(case, obs, mode):
         adapt = "None"
     else:
         adapt = "(Some (%s, %s))" % (C.clist([_ev(e) for e in obs["alog"]]), _ares(obs["aout"]))
-    return "(%s, %s, %s, (%s, true, %s, %s, %s), (%s, %s), %s)" % (
+    return "(%s, %s, %s, (%s, true, %s, %s, %s), (%s, %s), %s, %s)" % (
         uc, chain, o, C.cbool(vis_call), watch, watch, C.cbool(obs["ok"]),
-        C.clist([_ev(e) for e in obs["log"]]), _outcome(obs["out"]), adapt)
+        C.clist([_ev(e) for e in obs["log"]]), _outcome(obs["out"]), adapt, nterm)
 
 
 def classify(case, obs):
     if case["kind"] == "registry":
-        return ("registry", case["req"], case["reg"], case["factory_none"], case["provides"], case["alt"] is not None)
+        return ("registry", case["req"], case["reg"], case["factory_none"], case["provides"], case["alt"] is not None,
+                bool(case.get("nested")))
     return (case["conform"][0], tuple(case["conform"][1:2]), case["provides"], tuple(h[0] for h in case["hooks"]),
             case["alt"] is not None,
             tuple((None if l["adapt"] is None else l["adapt"][0], l["other"],
                    None if l.get("prov") is None else l["prov"][0], l.get("plain", False)) for l in case["chain"]),
-            case.get("objkind"), case.get("attach", "method"), case.get("watch", True))
+            case.get("objkind"), case.get("attach", "method"), case.get("watch", True),
+            json.dumps(case.get("nested"), sort_keys=True))
 
 
 def kind(case, obs):
@@ -465,7 +504,31 @@ def replay_text(case, obs, mode):
             L.append("implementer(I)(Obj)   # declared via: %s" % case.get("how", "implementer"))
         L.append("obj = Obj()")
     L.append("")
+    nst = case.get("nested")
+    if nst is not None:
+        L += ["class J(Interface):", "    pass", "class Other:",
+              "    pass" if nst["conform"][0] == "absent" else
+              "    def __conform__(self, iface):\n        return %s" % ("'nested conform value'" if nst["conform"][0] == "retvalue" else "None")]
+        if nst["provides"]:
+            L.append("implementer(J)(Other)")
+        L += ["other = Other()", "depth = [0]", "NESTED_ANSWERS = %r   # what hook i answers when called at depth 1" % (
+            [("nested hook value" if h[0] == "value" else None) for h in nst["nhooks"]],), ""]
     for i, h in enumerate(case["hooks"]):
+        if nst is not None:
+            own = {"none": "return None", "value": "return ('hook value', %d)" % i,
+                   "raise": "raise %s('hook %d')" % (en.get(h[1] if len(h) > 1 else "", "ValueError"), i)}[h[0]]
+            L += ["def hook%d(iface, ob):" % i,
+                  "    if depth[0]:",
+                  "        log.append(('depth 1: hook %d called with (J, other)?', iface is J and ob is other))" % i,
+                  "        return NESTED_ANSWERS[%d]" % i,
+                  "    log.append(('hook %d called with (I, obj)?', iface is I and ob is obj))" % i]
+            if nst["at"] == i:
+                L += ["    depth[0] += 1", "    try:", "        nested = J(other, None)   # adapts ANOTHER object to ANOTHER interface first",
+                      "    finally:", "        depth[0] -= 1"]
+                if nst.get("ret"):
+                    L.append("    return nested if isinstance(nested, str) else None")
+            L.append("    " + own)
+            continue
         beh = {"none": "return None", "value": "return ('hook value', %d)" % i,
                "raise": "raise %s('hook %d')" % (en.get(h[1] if len(h) > 1 else "", "ValueError"), i)}[h[0]]
         L += ["def hook%d(iface, ob):" % i, "    log.append('hook %d'); %s" % (i, beh)]
